@@ -206,9 +206,9 @@ pub fn run(ctx: &Ctx) -> i32 {
             small.push((name, tree));
         }
     }
-    let ladder: &[u64] = if ctx.thorough() { &[1, 2, 3, 4, 5, 6, 8, 10, 12, 14, 16, 20] } else { &[1, 2, 3, 4, 6, 8, 10, 12] };
-    let cap: u64 = if ctx.thorough() { 300_000 } else { 20_000 };
-    let presets: &[usize] = if ctx.thorough() { &[0, 1, 2, 3, 4] } else { &[0, 3] };
+    let ladder: &[u64] = if ctx.thorough() { &[1, 2, 3, 4, 5, 6, 8, 10, 12, 14, 16] } else { &[1, 2, 3, 4, 6, 8, 10, 12] };
+    let cap: u64 = if ctx.thorough() { 70_000 } else { 20_000 };
+    let presets: &[usize] = if ctx.thorough() { &[0, 2, 3] } else { &[0, 3] };
     ctx.set("part_a", json!({"games": small.len(), "budget_ladder": ladder, "history_cap": cap, "presets": presets.iter().map(|p| PRESET_NAMES[*p]).collect::<Vec<_>>(), "tail_threshold": "0.05 where the envelope is at most half the payoff range, 0.25 where it is between half and all of it"}));
     small.par_iter().enumerate().for_each(|(gi, (name, tree))| {
         if ctx.stopped() {
